@@ -2785,6 +2785,14 @@ where
                     }
                     _ => {}
                 });
+                // The incomplete exchanges of a session that is being resumed all continue on
+                // this connection: they count against the client's Receive Maximum from now
+                // on, not only once the CONNACK retransmits them.
+                if self.publish_send_max.is_some() {
+                    let incomplete =
+                        self.pid_puback.len() + self.pid_pubrec.len() + self.pid_pubcomp.len();
+                    self.publish_send_count = incomplete.min(u16::MAX as usize) as u16;
+                }
                 events.extend(self.refresh_pingreq_recv());
                 events.push(GenericEvent::NotifyPacketReceived(packet.into()));
             }
